@@ -27,7 +27,7 @@ def run(res: C.Result):
         p = progs.add_mid_run_edit(progs.gen_program(rng, k, ensembles=("canonical", "isobaric", "gc", "isotension", "hamiltonian", "gc", "canonical")))
         p["energy_probe"] = True
         p["criteria"] = "both"      # the real criteria is evaluated (it asks for the energy); the verdict is scripted
-        p["calc"] = ["caching", "stateless", "internal", "lj"][k % 4]
+        p["calc"] = ["caching", "stateless", "internal", "lj", "caching", "inplace", "internal", "lj"][k % 8]      # 'inplace': array results in one persistent buffer (ASE's EMT does)
         p["arrays"] = {a: False for a in p["arrays"]} | {"momenta": p["ensemble"] == "hamiltonian"}
         if p["ensemble"] == "gc":
             p["fixed"] = []
@@ -57,7 +57,7 @@ def run(res: C.Result):
                 ntok[0] += 1
                 toks[g] = ntok[0]
             return toks[g]
-        counting = p["calc"] in ("caching", "internal")
+        counting = p["calc"] in ("caching", "internal", "inplace")
         os_, first = [], True
         g0 = r["trials"][0]["pre"]["geom12"] if r["trials"] else None
         t0 = tk(g0)       # the initial configuration's token is fixed before any re-pointing
@@ -80,6 +80,8 @@ def run(res: C.Result):
                 why.append(("reported-energy", f"reported {e['reported']!r} eV but the current atoms have {e['fresh']!r} eV"))
             if abs(e["reference"] - e["fresh"]) > tol:
                 why.append(("reference-energy", f"reference energy {e['reference']!r} eV but the current atoms have {e['fresh']!r} eV"))
+            if not e.get("forces_ok", True):
+                why.append((f"forces:stale:{p['calc']}", f"the forces the calculator reports for the current atoms are off by {e['forces_max_error']:.3g} (they belong to another configuration)"))
             if not e["last_pos_ok"]:
                 why.append(("remembered-geometry", "context.last_positions differ from the current positions"))
             if not e["last_cell_ok"]:
